@@ -19,14 +19,15 @@ Theorem c01_terminates : forall (p : profile) (file : bytes), wf_bytes file -> b
 Proof. exact terminates. Qed.
 Print Assumptions c01_terminates.
 
-(* Every Vec::with_capacity on the modelled paths asks for at most ALLOC_C = 4 times the
-   input's size, whatever counts the file declares ... *)
+(* Every Vec::with_capacity on the modelled paths asks for at most ALLOC_FILE_C = 10 times the
+   input's size, whatever counts the file declares (10 = the crashpad module-link vector, whose
+   count is bounded by the whole file: 112-byte elements per 12 file bytes) ... *)
 Theorem c01_alloc_backed : forall (p : profile) (file : bytes), wf_bytes file -> blen file < T62 ->
-  forall a, In a (o_ledger (run_case Fixed p file)) -> 0 <= a <= ALLOC_C * blen file.
+  forall a, In a (o_ledger (run_case Fixed p file)) -> 0 <= a <= ALLOC_FILE_C * blen file.
 Proof. exact alloc_backed. Qed.
 Print Assumptions c01_alloc_backed.
 
-(* ... and, reader by reader, 4 times the bytes of its own stream. *)
+(* ... and the list readers, reader by reader, ALLOC_C = 4 times the bytes of their own stream. *)
 Theorem c01_stream_list_total : forall p e b fsz msz, wf_bytes b -> blen b < T62 -> 0 < fsz -> 0 <= msz <= ALLOC_C * fsz ->
   (forall t, snd (read_stream_list p e b fsz msz) <> Pan t) /\ snd (read_stream_list p e b fsz msz) <> NoFuel /\
   (forall a, In a (fst (read_stream_list p e b fsz msz)) -> 0 <= a <= ALLOC_C * blen b) /\
@@ -131,6 +132,14 @@ Theorem c01_strip_quotes_shorter : forall l, blen (strip_quotes l) <= blen l.
 Proof. exact strip_quotes_shorter. Qed.
 Print Assumptions c01_strip_quotes_shorter.
 
+(* crashpad info: simple dictionary, module links, per-module string lists / dictionaries / annotation
+   objects (counts of the last three are not validated by the code: the loops end with the data) *)
+Theorem c01_crashpad_info_total : forall e all b, wf_bytes all ->
+  (forall t, snd (read_crashpad_info e all b) <> Pan t) /\ snd (read_crashpad_info e all b) <> NoFuel /\
+  (forall a, In a (fst (read_crashpad_info e all b)) -> 0 <= a <= ALLOC_FILE_C * blen all).
+Proof. exact crashpad_info_total. Qed.
+Print Assumptions c01_crashpad_info_total.
+
 (* ---- the code before the fix commits: each statement is false, with a concrete file
    (corpus/C01/cases.txt replays the same bytes on the real code) *)
 (* F-C01a (object-info type 0x7777), F-C01c (number_parameters = 16), F-C01e (PPC context printed) *)
@@ -163,7 +172,7 @@ Example c01_nonvacuous_run :
      (6, FErr EStreamNotFound); (7, FErr EStreamNotFound); (8, FErr EStreamNotFound); (9, FErr EStreamNotFound);
      (10, FOk [1; 2]); (11, FOk [15; 0]); (12, FOk []); (13, FOk []); (14, FOk []); (15, FErr EStreamNotFound);
      (16, FErr EStreamNotFound); (17, FErr EStreamNotFound); (18, FErr EStreamNotFound); (19, FErr EStreamNotFound);
-     (20, FErr EStreamNotFound); (21, FErr EStreamNotFound)] /\
+     (20, FErr EStreamNotFound); (21, FErr EStreamNotFound); (22, FErr EStreamNotFound)] /\
   o_ledger (run_case Fixed Debug nv_dump) = [96; 256; 112; 248; 120].
 Proof. vm_compute. split; reflexivity. Qed.
 (* the xstate iterator on a mask with bits 0, 1, 39 and 63 set; quoted/padded key-value text *)
